@@ -57,6 +57,21 @@ fn parse_kinds(a: &Value) -> Value {
     json!({"root": format!("{:?}", root.kind()), "tree_tokens": tree_tokens, "input_tokens": texts, "diagnostics": diags.len(), "bad_ranges": bad})
 }
 
+fn show_expr(e: &ast::ast::Expr) -> String {
+    use ast::ast::Expr::*;
+    match e {
+        EPath { path, .. } => path.segments.iter().map(|s| s.ident.0.clone()).collect::<Vec<_>>().join("::"),
+        EField { expr, field, .. } => format!("({}.{})", show_expr(expr), field.0),
+        ECall { func, args, .. } => {
+            let f = match &**func { EPath { .. } | ECall { .. } | EField { .. } => show_expr(func), _ => format!("({})", show_expr(func)) };
+            format!("{}({})", f, args.iter().map(show_expr).collect::<Vec<_>>().join(", "))
+        }
+        EUnary { op, expr, .. } => format!("({:?} {})", op, show_expr(expr)),
+        EBinary { op, lhs, rhs, .. } => format!("({} {:?} {})", show_expr(lhs), op, show_expr(rhs)),
+        other => { let d = format!("{:?}", other); format!("<{}>", d.split(|c: char| !c.is_alphanumeric()).next().unwrap_or("")) }
+    }
+}
+
 fn lower_kinds(a: &Value) -> Value {
     // tokens given by kind names (+ texts): real parser, real tree, real ast::lower
     let table = kind_table(&a[1]);
@@ -106,6 +121,17 @@ fn handle(req: &Value) -> Value {
             let items: Vec<String> = astf.as_ref().map(|f| f.toplevels.iter().map(|i| { let d = format!("{:?}", i); d.split(|c: char| !c.is_alphanumeric()).next().unwrap_or("").to_string() }).collect()).unwrap_or_default();
             json!({"has_ast": astf.is_some(), "diagnostics": diags.len(), "items": items,
                    "debug_len": astf.as_ref().map(|f| format!("{:?}", f.toplevels).len()).unwrap_or(0)})
+        }
+        "lower_expr_shape" => {
+            // grouping of the single expression in the body of the first fn, after the real parser and the real ast::lower
+            let r = parser::parse(std::path::Path::new("x.gom"), a[0].as_str().unwrap());
+            let (green, _d) = r.into_parts();
+            let root: parser::syntax::MySyntaxNode = rowan::SyntaxNode::new_root(green);
+            let file = <cst::cst::File as cst::cst::CstNode>::cast(root).unwrap();
+            let (astf, _diags) = ast::lower::lower(file).into_parts();
+            let f = astf.unwrap();
+            let body = f.toplevels.iter().find_map(|i| if let ast::ast::Item::Fn(f) = i { Some(f.body.clone()) } else { None }).unwrap();
+            match body { ast::ast::Expr::EBlock { exprs, .. } => json!(show_expr(exprs.last().unwrap())), e => json!(show_expr(&e)) }
         }
         "parse_text" => {
             let r = parser::parse(std::path::Path::new("x.gom"), a[0].as_str().unwrap());
